@@ -289,15 +289,67 @@ fn exemption_witness() -> Result<Value, String> {
     Ok(json!({"base_cell_face_1": format!("{:x}", b1), "quintants_of_face_0": q.iter().map(|x| format!("{:x}", x)).collect::<Vec<_>>(), "quintants_below": below}))
 }
 
+/// Exhaustive sweep of one whole resolution: sort all cell IDs; along the sorted sequence the
+/// ancestors at every level 1..r must be non-decreasing (which is the pairwise claim for a total
+/// order), and all children of a cell must precede all children of the next cell.
+fn sweep_resolution(res: i32, st: &mut Stats) -> Result<(), String> {
+    let n = codec::num_cells(res) as u64;
+    let mut ids: Vec<u64> = (0..n).map(|i| codec::encode(&crate::gen::cell_by_index(res, i))).collect();
+    ids.sort_unstable();
+    let mut prev_anc: Vec<u64> = Vec::new();
+    let mut prev_max_child: Option<u64> = None;
+    for (k, &id) in ids.iter().enumerate() {
+        st.eval();
+        let mut anc = Vec::with_capacity(res as usize);
+        for l in 1..=res {
+            anc.push(parent_at(id, l)?);
+        }
+        if k > 0 {
+            for (li, (a, b)) in prev_anc.iter().zip(anc.iter()).enumerate() {
+                if a > b {
+                    return Err(format!(
+                        "resolution {}: {:#x} < {:#x} but their ancestors at resolution {} are ordered the other way ({:#x} > {:#x})",
+                        res, ids[k - 1], id, li + 1, a, b
+                    ));
+                }
+            }
+        }
+        if res < 29 {
+            let kids = kids_at(id, res + 1)?;
+            let mn = *kids.iter().min().unwrap();
+            let mx = *kids.iter().max().unwrap();
+            if let Some(pm) = prev_max_child {
+                if pm >= mn {
+                    return Err(format!("resolution {}: children of {:#x} do not all precede the children of {:#x}", res, ids[k - 1], id));
+                }
+            }
+            prev_max_child = Some(mx);
+        }
+        prev_anc = anc;
+        if k % 4 == 1 {
+            st.nontrivial(&id);
+        }
+    }
+    Ok(())
+}
+
 pub fn run(tier: Tier, seed: u64) -> Report {
     let mut rep = Report::new("C20", tier, seed, RULE);
+    {
+        let max_sweep = tier.pick(8, 10);
+        let r = run_exhaustive("sweep", (max_sweep - 1) as u64, |i, st| sweep_resolution(2 + i as i32, st), |i| json!({"res": 2 + i}));
+        rep.exhaustive.push(format!("every cell of resolutions 2..{} in ID order: ancestors at all levels non-decreasing, children blocks disjoint and ordered", max_sweep));
+        if !rep.absorb("sweep", r) {
+            return rep;
+        }
+    }
     rep.assume("ancestry is judged by the set model; IDs are the library's own outputs compared as integers");
     match exemption_witness() {
         Ok(v) => {
             rep.extra.insert("base_cell_exemption_witness".into(), v);
         }
         Err(m) => {
-            rep.violation = Some(Violation { section: "exemption".into(), case: json!({}), message: m });
+            rep.violation = Some(Violation { section: "exemption".into(), case: json!({}), message: m, preceding: Vec::new() });
             return rep;
         }
     }
@@ -338,6 +390,7 @@ pub fn replay(section: &str, case: &Value) -> Option<Result<(), String>> {
         "pairs" => check_pair(&pair_from_json(case).ok_or("bad case")?, &mut st),
         "intervals" => check_interval(&interval_from_json(case).ok_or("bad case")?, &mut st),
         "exemption" => exemption_witness().map(|_| ()),
+        "sweep" => sweep_resolution(case["res"].as_i64().ok_or("bad case")? as i32, &mut st),
         _ => Err(format!("unknown section {}", section)),
     }))
 }
